@@ -91,11 +91,12 @@ func TestC03(t *testing.T) {
 	r := ev.New("C03", "exploration",
 		"one generated CSV/JSON table ("+
 			"CSV tables carry a Time column in about a third of the cases (RFC3339 cells from a small pool of instants incl. pre-1970 and year 2262, each written in one of the spellings Z/+02:00/-04:00/+05:30/-00:00/+00:00, so one instant under several spellings is frequent)) x GROUP BY queries with 0-3 key expressions (Time columns and COALESCE of them included), 1-5 aggregates from count(*)/count/sum/avg/min/max/array_agg and their DISTINCT variants over Int/Float (String/Boolean/Time for count and array_agg, Time for max: octosql has no min/sum/avg over Time), optional WHERE below; half of the queries are wrapped by an outer query: HAVING-like WHERE above with every inner column projected, or a projection of a SUBSET of the inner columns that leaves 2 or more (possibly all) of >=3 inner aggregates unused, with an optional WHERE over the kept columns (the optimiser deletes the unused aggregates from the inner GROUP BY); "+
+			"about a quarter of the JSON tables carry one list column ([Float] or [String]; cells from a pool of prefix-related lists [] [1] [1,2] [1,2,3] [1,2,3,4] [1,3] [2] [2,1], so proper-prefix pairs with length gaps of 1 and >=2 are the normal case, plus twin rows that differ only in a prefix-related list cell) used as GROUP BY key (also through COALESCE, len(l), l[i]) and as argument of count / count(DISTINCT) / array_agg / array_agg(DISTINCT) (min/max over lists fail at run time, sum/avg are type errors: not generated); "+
 			"every query is run twice through the real binary: plain (hash-based implementation) and with TRIGGER COUNTING 1000000, ON END OF STREAM under an outer ORDER BY (btree/trigger implementation, consolidated); "+
 			"oracle = reference grouping (one row per distinct key incl. NULL, aggregates over non-NULL inputs, NULL for none, AVG(Int) truncating, array_agg ascending; a Time key/argument is an instant: two spellings of one instant are one group and one DISTINCT value, which spelling is printed is left open - printed times are compared as instants). non-trivial: (>=2 groups or a NULL key or an all-NULL aggregate input) and some group with >=2 rows. distinct=(SQL, file)",
 		"floats are dyadic so sums are exact in any order; a GROUP BY written without any aggregate is outside the quantifier (1-5 aggregates)")
 	ev.Check(t, r, "groupby_vs_model", ev.N(4000, 100000), func(t *rapid.T) QueryCase {
-		tbl := gen.Table(t, gen.TableOpts{Name: "tab", MinRows: 0, MaxRows: 12, MinCols: 2, Time: true})
+		tbl := gen.Table(t, gen.TableOpts{Name: "tab", MinRows: 0, MaxRows: 12, MinCols: 2, Time: true, List: true})
 		q := gen.GroupQuery(t, tbl, gen.GroupOpts{}, "q")
 		return QueryCase{Tables: []gen.TableSpec{tbl}, Q: q, SQL: q.SQL(), Mode: "json", NoOpt: rapid.IntRange(0, 5).Draw(t, "noopt") == 0}
 	}, c03Prop)
